@@ -83,6 +83,8 @@ def reset_terms():
     ATOMS.clear()
     ATOM_LIST.clear()
     FRESH[0] = 0
+    global CTX
+    CTX = Ctx()
 
 
 def Sym(name):
@@ -490,6 +492,245 @@ def rf_key(a):
     return (p_key(a[0]), p_key(a[1]))
 
 
+
+# ----------------------------------------------------------------------------------------------
+# rewrite context (per job; reset by reset_terms): representation-constraint rules and sign facts used to
+# canonicalise the ARGUMENTS of function atoms (sqrt of perfect squares, trig of atan2, atan2 of sin/cos)
+class Ctx:
+    def __init__(self):
+        self.rules = []  # user rules (atom, power, replacement poly) e.g. unit norm
+        self.auto_rules = []  # r^2 -> arg for sqrt atoms with polynomial argument
+        self.nonneg = set()  # atom indices known >= 0 (sqrt atoms automatically)
+        self.principal = set()  # Term ids u with u in (-pi, pi]  (so atan2(sin u, cos u) = u)
+        self.log = []  # axiom instances used
+
+    def all_rules(self):
+        return self.auto_rules + self.rules
+
+
+CTX = Ctx()
+
+
+def reduce_poly(p, subst, rules, maxiter=60):
+    if subst:
+        p = p_subst(p, subst)
+    if not rules:
+        return p
+    rmap = {a: (k, rep) for a, k, rep in rules}
+    for _ in range(maxiter):
+        changed = False
+        out = {}
+        for m, c in p.items():
+            hit = None
+            for v, e in m:
+                r = rmap.get(v)
+                if r is not None and e >= r[0]:
+                    hit = (v, e, r)
+                    break
+            if hit is None:
+                v0 = out.get(m)
+                if v0 is None:
+                    out[m] = c
+                else:
+                    v0 += c
+                    if v0 == 0:
+                        del out[m]
+                    else:
+                        out[m] = v0
+                continue
+            changed = True
+            v, e, (k, rep) = hit
+            rest = tuple((a, b) if a != v else (a, e % k) for a, b in m)
+            rest = tuple(x for x in rest if x[1] > 0)
+            t = p_mul({rest: c}, p_pow(rep, e // k))
+            for m2, c2 in t.items():
+                v0 = out.get(m2)
+                if v0 is None:
+                    out[m2] = c2
+                else:
+                    v0 += c2
+                    if v0 == 0:
+                        del out[m2]
+                    else:
+                        out[m2] = v0
+        p = out
+        if not changed:
+            break
+    return p
+
+
+def _lead(p):
+    return max(p)  # lexicographic on (atom, exp) tuples
+
+
+def m_div(m1, m2):
+    """m1 / m2 or None"""
+    d = dict(m1)
+    for v, e in m2:
+        if d.get(v, 0) < e:
+            return None
+        d[v] -= e
+        if d[v] == 0:
+            del d[v]
+    return tuple(sorted(d.items()))
+
+
+def p_divide(n, d, maxsteps=20000):
+    """exact quotient n/d or None"""
+    if not d:
+        return None
+    if p_is_const(d):
+        return p_scale(n, 1 / d[()])
+    # order: graded by total degree then lex, to guarantee termination
+    def key(m):
+        return (sum(e for _, e in m), m)
+    ld = max(d, key=key)
+    cd = d[ld]
+    q = {}
+    r = dict(n)
+    steps = 0
+    while r:
+        steps += 1
+        if steps > maxsteps:
+            return None
+        lr = max(r, key=key)
+        qm = m_div(lr, ld)
+        if qm is None:
+            return None
+        qc = r[lr] / cd
+        q[qm] = q.get(qm, 0) + qc
+        r = p_sub(r, p_mul({qm: qc}, d))
+    return {m: c for m, c in q.items() if c != 0}
+
+
+def canon_rf(rf):
+    """reduce numerator and denominator modulo the context rules and cancel exactly when possible"""
+    n, d = rf
+    rules = CTX.all_rules()
+    if rules:
+        n = reduce_poly(n, None, rules)
+        d = reduce_poly(d, None, rules)
+    if not n:
+        return ({}, p_const(1))
+    if not p_is_const(d):
+        q = p_divide(n, d)
+        if q is not None:
+            return (q, p_const(1))
+        if len(n) >= 1 and len(d) > 1:
+            q2 = p_divide(d, n)
+            if q2 is not None and not p_is_const(n):
+                return (p_const(1), q2)
+    return rf_norm(n, d)
+
+
+def _is_square_q(q):
+    from math import isqrt
+    if q < 0:
+        return None
+    a, b = q.numerator, q.denominator
+    ra, rb = isqrt(a), isqrt(b)
+    if ra * ra == a and rb * rb == b:
+        return Fraction(ra, rb)
+    return None
+
+
+def _sqrt_simplify(rf):
+    """sqrt of c*m1/(c2*m2) with even exponents over atoms known nonneg -> rational monomial, else None"""
+    n, d = rf
+    if len(n) != 1 or len(d) != 1:
+        return None
+    (mn, cn), = n.items()
+    (md, cd), = d.items()
+    r = _is_square_q(cn / cd)
+    if r is None:
+        return None
+    def half(m):
+        out = []
+        for v, e in m:
+            if e % 2:
+                return None
+            if (e // 2) % 2 == 1 and v not in CTX.nonneg:
+                return None
+            out.append((v, e // 2))
+        return tuple(out)
+    hn, hd = half(mn), half(md)
+    if hn is None or hd is None:
+        return None
+    return ({hn: r}, {hd: Fraction(1)})
+
+
+def _chebyshev(k, S, C, rfm=False):
+    """(sin(kx), cos(kx)) from S=sin x, C=cos x given as rational functions"""
+    neg = k < 0
+    k = abs(k)
+    one = (p_const(1), p_const(1))
+    zero = ({}, p_const(1))
+    if k == 0:
+        return zero, one
+    s_prev, s_cur = zero, S
+    c_prev, c_cur = one, C
+    two = (p_const(2), p_const(1))
+    for _ in range(k - 1):
+        s_prev, s_cur = s_cur, rf_add(rf_mul(two, rf_mul(C, s_cur)), rf_neg(s_prev))
+        c_prev, c_cur = c_cur, rf_add(rf_mul(two, rf_mul(C, c_cur)), rf_neg(c_prev))
+    return (rf_neg(s_cur) if neg else s_cur), c_cur
+
+
+def _fn_nf(u, args_rf):
+    """normal form of a function application with canonicalised arguments; may simplify instead of creating an atom"""
+    name = u.args[0]
+    if name == "sqrt":
+        a = args_rf[0]
+        if p_is_const(a[0]) and p_is_const(a[1]):
+            q = (a[0].get((), Fraction(0))) / a[1][()]
+            r = _is_square_q(q)
+            if r is not None:
+                return (p_const(r), p_const(1))
+        r = _sqrt_simplify(a)
+        if r is not None:
+            CTX.log.append("sqrt of a perfect square of non-negative atoms simplified")
+            return r
+    if name in ("sin", "cos"):
+        n, d = args_rf[0]
+        if not n:
+            return (p_const(0 if name == "sin" else 1), p_const(1))
+        if p_is_const(d) and len(n) == 1:
+            (m, q), = n.items()
+            q = q / d[()]
+            if len(m) == 1 and m[0][1] == 1:
+                info = ATOM_LIST[m[0][0]]
+                if info[0] == "fn" and info[1] == "atan2" and q.denominator == 1:
+                    y, x = info[2]
+                    yr, xr = canon_rf(nf(y)), canon_rf(nf(x))
+                    rho = nf(Fn("sqrt", Add(Mul(x, x), Mul(y, y))))
+                    S = rf_div(yr, rho)
+                    C = rf_div(xr, rho)
+                    sk, ck = _chebyshev(int(q), S, C)
+                    CTX.log.append("sin/cos(k*atan2(y,x)) expanded through y/rho, x/rho")
+                    return canon_rf(sk if name == "sin" else ck)
+    if name == "atan2":
+        (yn, yd), (xn, xd) = args_rf
+        if p_is_const(yd) and p_is_const(xd) and len(yn) == 1 and len(xn) == 1:
+            (ym, yc), = yn.items()
+            (xm, xc), = xn.items()
+            if len(ym) == 1 and len(xm) == 1 and ym[0][1] == 1 and xm[0][1] == 1 and yc == yd[()] and xc == xd[()]:
+                iy, ix = ATOM_LIST[ym[0][0]], ATOM_LIST[xm[0][0]]
+                if iy[0] == "fn" and ix[0] == "fn" and iy[1] == "sin" and ix[1] == "cos":
+                    uy, ux = iy[2][0], ix[2][0]
+                    if rf_key(nf(uy)) == rf_key(nf(ux)) and (uy.id in CTX.principal or ux.id in CTX.principal):
+                        CTX.log.append("atan2(sin u, cos u) = u for u in (-pi, pi]")
+                        return nf(uy)
+    keys = tuple(rf_key(a) for a in args_rf)
+    argterms = tuple(rf_to_term(a) for a in args_rf)
+    i = atom_index(("fn", name) + keys, ("fn", name, argterms))
+    if name == "sqrt":
+        CTX.nonneg.add(i)
+        n, d = args_rf[0]
+        if p_is_const(d):
+            CTX.auto_rules.append((i, 2, p_scale(n, 1 / d[()])))
+    return (p_atom(i), p_const(1))
+
+
 def nf(t: Term):
     """Rational-function normal form of a term (memoised, iterative post-order)."""
     if t._nf is not None:
@@ -512,9 +753,7 @@ def nf(t: Term):
             i = atom_index(("sym", u.args[0]), ("sym", u.args[0]))
             r = (p_atom(i), p_const(1))
         elif op == "fn":
-            keys = tuple(rf_key(a._nf) for a in u.args[1:])
-            i = atom_index(("fn", u.args[0]) + keys, ("fn", u.args[0], u.args[1:]))
-            r = (p_atom(i), p_const(1))
+            r = _fn_nf(u, [canon_rf(a._nf) for a in u.args[1:]])
         elif op == "neg":
             r = rf_neg(u.args[0]._nf)
         elif op == "add":
@@ -605,3 +844,57 @@ def evaluate(t: Term, env, lib=None, cache=None):
             raise ValueError(op)
         cache[u.id] = v
     return cache[t.id]
+
+
+def substitute(t: Term, mapping):
+    """replace symbols by terms (mapping: symbol name -> Term); memoised post-order"""
+    cache = {}
+    stack = [t]
+    while stack:
+        u = stack[-1]
+        if u.id in cache:
+            stack.pop()
+            continue
+        pend = [a for a in u.args if isinstance(a, Term) and a.id not in cache]
+        if pend:
+            stack.extend(pend)
+            continue
+        stack.pop()
+        op = u.op
+        if op == "sym":
+            r = mapping.get(u.args[0], u)
+        elif op == "const":
+            r = u
+        elif op == "neg":
+            r = Neg(cache[u.args[0].id])
+        elif op == "add":
+            r = Add(cache[u.args[0].id], cache[u.args[1].id])
+        elif op == "sub":
+            r = Sub(cache[u.args[0].id], cache[u.args[1].id])
+        elif op == "mul":
+            r = Mul(cache[u.args[0].id], cache[u.args[1].id])
+        elif op == "div":
+            r = Div(cache[u.args[0].id], cache[u.args[1].id])
+        elif op == "fn":
+            r = Fn(u.args[0], *[cache[a.id] for a in u.args[1:]])
+        else:
+            raise ValueError(op)
+        cache[u.id] = r
+    return cache[t.id]
+
+
+def symbols_of(t: Term, acc=None):
+    acc = set() if acc is None else acc
+    seen = set()
+    stack = [t]
+    while stack:
+        u = stack.pop()
+        if u.id in seen:
+            continue
+        seen.add(u.id)
+        if u.op == "sym":
+            acc.add(u.args[0])
+        for a in u.args:
+            if isinstance(a, Term):
+                stack.append(a)
+    return acc
